@@ -18,14 +18,15 @@ pub struct ExIpAddr(std::net::IpAddr);
 pub assume_specification [std::net::IpAddr::to_canonical] (a: &std::net::IpAddr) -> (r: std::net::IpAddr);
 pub struct RecursiveContextInner { pub protocol_mode: ProtocolMode, pub upstream_dns_port: u16 }
 // stand-in for Context<'a, RecursiveContextInner>: the configuration plus a ghost log of the query types asked through it
-pub struct RecursiveContext<'a> { pub r: RecursiveContextInner, pub asked: Ghost<Seq<QueryType>>, pub z: &'a u8 }
+pub struct Asked { pub recursive: bool, pub name: DomainName, pub qtype: QueryType }
+pub struct RecursiveContext<'a> { pub r: RecursiveContextInner, pub asked: Ghost<Seq<Asked>>, pub z: &'a u8 }
 #[verifier::external_body]
 pub fn resolve_local(context: &mut RecursiveContext<'_>, question: &Question) -> (r: Result<LocalResolutionResult, ResolutionError>)
-    ensures final(context).asked@ == old(context).asked@.push(question.qtype), final(context).r == old(context).r,
+    ensures final(context).asked@ == old(context).asked@.push(Asked { recursive: false, name: question.name, qtype: question.qtype }), final(context).r == old(context).r,
 { unimplemented!() }
 #[verifier::external_body]
 pub async fn resolve_recursive_notimeout(context: &mut RecursiveContext<'_>, question: &Question) -> (r: Result<ResolvedRecord, ResolutionError>)
-    ensures final(context).asked@ == old(context).asked@.push(question.qtype), final(context).r == old(context).r,
+    ensures final(context).asked@ == old(context).asked@.push(Asked { recursive: true, name: question.name, qtype: question.qtype }), final(context).r == old(context).r,
 { unimplemented!() }
 #[verifier::external_body]
 fn follow_cnames(rrs: &[ResourceRecord], target: &DomainName, qtype: QueryType) -> (r: Option<(DomainName, HashMap<DomainName, DomainName>)>)
@@ -40,6 +41,10 @@ pub open spec fn mode_order(m: ProtocolMode) -> Seq<QueryType> {
         ProtocolMode::OnlyV6 => seq![QueryType::Record(RecordType::AAAA)],
     }
 }
+// the first n look-ups of a mode, for one host name, all local or all recursive
+pub open spec fn asks(m: ProtocolMode, n: int, locally: bool, name: DomainName) -> Seq<Asked> {
+    Seq::new(n as nat, |i: int| Asked { recursive: !locally, name, qtype: mode_order(m)[i] })
+}
 pub open spec fn family_of(q: QueryType, a: IpAddr) -> bool {
     (q == QueryType::Record(RecordType::A) && a is V4) || (q == QueryType::Record(RecordType::AAAA) && a is V6)
 }
@@ -50,21 +55,22 @@ SPECS = {
         && exists|i: int| 0 <= i < rrs@.len() && #[trigger] rrs@[i] == *r->Some_0,"""},
     "get_ip": {"props": ["C18"], "contract": """    ensures r is Some && r->Some_0 is V4 ==> rtype == RecordType::A, // [C18:address_family_matches_the_asked_record_type]
         r is Some && r->Some_0 is V6 ==> rtype == RecordType::AAAA, // [C18:address_family_matches_the_asked_record_type]"""},
-    "resolve_hostname_to_ip": {"props": ["C18"], "contract": """    ensures
+    "resolve_hostname_to_ip": {"props": ["C18", "C07"], "contract": """    ensures
         final(context).r == old(context).r,
         // what was asked is a prefix of the mode's order: preferred family first, the other family never in the only-modes
-        exists|n: int| 0 <= n <= mode_order(old(context).r.protocol_mode).len() && final(context).asked@ == old(context).asked@ + #[trigger] mode_order(old(context).r.protocol_mode).take(n)
+        // ... and every look-up is for the host name given, made from local data exactly when asked to (C07: local first, recursion only on the slow path)
+        exists|n: int| 0 <= n <= mode_order(old(context).r.protocol_mode).len() && final(context).asked@ == old(context).asked@ + #[trigger] asks(old(context).r.protocol_mode, n, resolve_locally, hostname)
             && (r is None ==> n == mode_order(old(context).r.protocol_mode).len())
-            && (r is Some ==> n >= 1 && family_of(mode_order(old(context).r.protocol_mode)[n - 1], r->Some_0)), // [C18:lookups_in_mode_order_and_address_of_the_family_asked_last]
+            && (r is Some ==> n >= 1 && family_of(mode_order(old(context).r.protocol_mode)[n - 1], r->Some_0)), // [C07,C18:lookups_for_the_given_name_in_mode_order_local_or_recursive_as_told_and_address_of_the_family_asked_last]
         old(context).r.protocol_mode == ProtocolMode::OnlyV4 ==> r is None || r->Some_0 is V4, // [C18:only_v4_never_yields_v6]
         old(context).r.protocol_mode == ProtocolMode::OnlyV6 ==> r is None || r->Some_0 is V6, // [C18:only_v6_never_yields_v4]""",
         "loops": {"0": {"kw": "for", "iter_name": "it__", "spec": """        invariant
-            it__.seq() == order__, order__.len() <= 2, context.r == old(context).r, question.name == qn__,
+            it__.seq() == order__, order__.len() <= 2, context.r == old(context).r, question.name == qn__, qn__ == hostname,
             forall|j: int| 0 <= j < order__.len() ==> QueryType::Record(#[trigger] order__[j]) == mode_order(old(context).r.protocol_mode)[j],
             order__.len() == mode_order(old(context).r.protocol_mode).len(),
-            context.asked@ == old(context).asked@ + mode_order(old(context).r.protocol_mode).take(it__.index@ as int),""",
-            "entry": "let ghost idx = it__.index@ as int; proof { let mo = mode_order(old(context).r.protocol_mode); assert(mo.take(idx + 1) =~= mo.take(idx).push(mo[idx])); }"}},
-        "anchors": [{"after": "for rtype in rtypes", "at": "before", "proof": "let ghost order__ = rtypes@; let ghost qn__ = question.name; proof { assert(mode_order(context.r.protocol_mode).take(0) =~= Seq::<QueryType>::empty()); assert(context.asked@ + Seq::<QueryType>::empty() =~= context.asked@); }"}]},
+            context.asked@ == old(context).asked@ + asks(old(context).r.protocol_mode, it__.index@ as int, resolve_locally, qn__),""",
+            "entry": "let ghost idx = it__.index@ as int; proof { let m = old(context).r.protocol_mode; assert(asks(m, idx + 1, resolve_locally, qn__) =~= asks(m, idx, resolve_locally, qn__).push(Asked { recursive: !resolve_locally, name: qn__, qtype: mode_order(m)[idx] })); assert((old(context).asked@ + asks(m, idx, resolve_locally, qn__)).push(Asked { recursive: !resolve_locally, name: qn__, qtype: mode_order(m)[idx] }) =~= old(context).asked@ + asks(m, idx + 1, resolve_locally, qn__)); }"}},
+        "anchors": [{"after": "for rtype in rtypes", "at": "before", "proof": "let ghost order__ = rtypes@; let ghost qn__ = question.name; proof { assert(qn__ == hostname); assert(asks(context.r.protocol_mode, 0, resolve_locally, qn__) =~= Seq::<Asked>::empty()); assert(context.asked@ + Seq::<Asked>::empty() =~= context.asked@); }"}]},
 }
 
 
@@ -92,6 +98,7 @@ def build(G):
 
 
 CANARIES = [
+    {"name": "nameserver_addresses_always_sought_recursively", "file": REC, "old": "        if resolve_locally {\n            if let Ok(LocalResolutionResult::Done { resolved }) = resolve_local(context, &question)", "new": "        if resolve_locally && false {\n            if let Ok(LocalResolutionResult::Done { resolved }) = resolve_local(context, &question)"},
     {"name": "only_v4_falls_back", "file": REC, "old": "ProtocolMode::OnlyV4 => vec![RecordType::A],", "new": "ProtocolMode::OnlyV4 => vec![RecordType::A, RecordType::AAAA],"},
     {"name": "prefer_v6_asks_a_first", "file": REC, "old": "ProtocolMode::PreferV6 => vec![RecordType::AAAA, RecordType::A],", "new": "ProtocolMode::PreferV6 => vec![RecordType::A, RecordType::AAAA],"},
     {"name": "get_ip_any_family", "file": REC, "old": "if let Some(rr) = get_record(rrs, &final_name, rtype) {", "new": "if let Some(rr) = get_record(rrs, &final_name, rtype).or(get_record(rrs, &final_name, RecordType::A)) {"},
